@@ -192,9 +192,19 @@ class Interp:
                     base = ("el", elem[0], elem[1], tuple(name)) if elem else sname
                     return SliceV(base, 0, Lin.atom(("len", base)))
                 seq = ("efield", elem[0], elem[1], tuple(name)) if elem else sname
+                from .lin import CNT_BOUNDS, LEN_MAX
+                if "Vec" in d:
+                    CNT_BOUNDS[seq] = LEN_MAX // max(1, self.min_size(t["args"][0]))
+                elif et["k"] == "int":
+                    # a set of integers has at most as many elements as the type has values
+                    CNT_BOUNDS[seq] = min(LEN_MAX, 1 << INT_BITS.get(et["s"], 64))
                 return CollV(seq, t["args"][0], kind="set" if "BTreeSet" in d else "vec")
             if d == "std::collections::HashMap":
                 seq = ("efield", elem[0], elem[1], tuple(name)) if elem else sname
+                kt = self.F.types[t["args"][0]]
+                if kt["k"] == "int":
+                    from .lin import CNT_BOUNDS, LEN_MAX
+                    CNT_BOUNDS[seq] = min(LEN_MAX, 1 << INT_BITS.get(kt["s"], 64))
                 return CollV(seq, ("pair", t["args"][0], t["args"][1]), kind="map")
             if d == "std::marker::PhantomData":
                 return UNIT
@@ -206,6 +216,30 @@ class Interp:
                 return EnumV(d, (tuple(name), elem))
             return Opaque("adt " + t["s"])
         return Opaque("type " + t["s"])
+
+    def min_size(self, tyi, depth=0):
+        """a lower bound of size_of::<T>() in bytes (sum of the fields' lower bounds; 0 when unknown)"""
+        t = self.F.types[tyi]
+        k = t["k"]
+        if k == "int":
+            return INT_BITS.get(t["s"], 8) // 8
+        if k == "bool":
+            return 1
+        if k in ("ref", "ptr"):
+            return 8
+        if k == "tuple":
+            return sum(self.min_size(x, depth + 1) for x in t["elems"])
+        if k == "array" and t.get("len"):
+            return t["len"] * self.min_size(t["elem"], depth + 1)
+        if k == "adt" and depth < 4:
+            d = t["def"]
+            if d in ("std::vec::Vec", "std::string::String", "std::borrow::Cow"):
+                return 24
+            if d == "std::boxed::Box":
+                return 8
+            if d in self.F.adts and not self.F.adts[d]["is_enum"]:
+                return sum(self.min_size(f["t"], depth + 1) for f in self.F.adts[d]["variants"][0]["fields"])
+        return 0
 
     def seq_elem(self, coll, k):
         """symbolic k-th element of a non-built collection"""
